@@ -77,6 +77,8 @@ def byte_of_u8 (b : UInt8) : UInt8 := b
 def i32_of_u8 (b : UInt8) : UInt32 := b.toUInt32
 /-- `static_cast<std::byte>(int)`: the value modulo 256. -/
 def byte_of_i32 (x : UInt32) : UInt8 := x.toUInt8
+/-- `static_cast<std::byte>(unsigned)`: the value modulo 256. -/
+def byte_of_u32 (x : UInt32) : UInt8 := x.toUInt8
 /-- `static_cast<int32_t>(int64_t)`: the low 32 bits. -/
 def i32_of_i64 (x : UInt64) : UInt32 := x.toUInt32
 /-- `static_cast<uint32_t>(int32_t)`: same pattern. -/
